@@ -39,7 +39,7 @@ def _strategy_marg(shapes):
         diag = draw(st.booleans())
         dims = draw(gen.perm_prefix(D))
         case = {"D": D, "R": R, "N": N, "diag": diag, "dims": dims,
-                "p": draw(gen.measure_params("diag_pdf" if diag else "pdf", R, D, draw(st.sampled_from([10.0, 100.0])), extreme="wide" if D >= 17 else True)),
+                "p": draw(gen.measure_params("diag_pdf" if diag else "pdf", R, D, draw(st.sampled_from([10.0, 100.0])), extreme="wide" if D >= 17 else True, hetero=True)),
                 "upd": draw(gen.maybe_update("diag_pdf" if diag else "pdf", R, D)),
                 "x": draw(gen.arr((N, len(dims)), -3, 3)),
                 # a second, different query on the same object (a result remembered from the first must not leak)
